@@ -861,6 +861,7 @@ func init() {
 		runStreamStatus(o, r, n)
 		truncatedUnaryReplies(o)
 		unencodableResponses(o)
+		httpClientSchedules(o, r, n, "HLts")
 		ltsCases(o, r, profile{name: "status", rounds: [2]int{5, 14}, cancel: 10, handlerEnd: 60, headers: 20, kinds: []string{"BD", "SS", "CS"}, returnCodes: []int64{0, 5, 13, -1, 2, 14}}, n)
 		o.Finding = "finding_case"
 		o.Shard = 60
@@ -886,6 +887,7 @@ func init() {
 		}
 		runScripts(o, r, n, false)
 		singleCorpus(o)
+		httpClientSchedules(o, r, n, "HLts")
 		secondRequestRefused(o)
 		ltsCases(o, r, profile{name: "single", rounds: [2]int{4, 12}, cancel: 5, handlerEnd: 50, headers: 20, kinds: []string{"CS", "CS", "SS"}, returnCodes: []int64{0, 0, 5, -2}}, n)
 		o.Finding = "finding_case"
